@@ -864,6 +864,39 @@ func writeEvidence(prop *Property, tier string, seed int64, st *Stats, self *Sel
 			"exhaustive":              false,
 		},
 	}
+	// the task scheduler: what the instrumenter found in this tree and what actually ran
+	sched := map[string]interface{}{
+		"what": "goroutines, timers, channel operations, select and blocking sync methods of the program run as tasks under a seeded scheduler (verifsimrt/tasks.go); one seed = one interleaving",
+	}
+	if b, err := os.ReadFile(os.Getenv("VERIF_INSTRUMENT_REPORT")); err == nil {
+		var ir struct {
+			Rewrites   map[string]int `json:"rewrites"`
+			Unmodelled []string       `json:"unmodelled"`
+		}
+		if json.Unmarshal(b, &ir) == nil {
+			conc := map[string]int{}
+			for _, k := range []string{"go statement", "chan receive", "chan send", "range over channel", "select", "time.NewTicker", "time.Tick", "time.NewTimer", "time.After", "time.AfterFunc", "time.Sleep"} {
+				if ir.Rewrites[k] > 0 {
+					conc[k] = ir.Rewrites[k]
+				}
+			}
+			for k, n := range ir.Rewrites {
+				if strings.HasPrefix(k, "sync.") {
+					conc[k] = n
+				}
+			}
+			sched["constructs_found_in_the_tree"] = conc
+			if len(conc) == 0 {
+				sched["note"] = "this tree starts no goroutine and uses no timer, channel or lock: the scheduler was dormant (one task per run)"
+			}
+			sched["unmodelled_constructs"] = ir.Unmodelled
+		}
+	}
+	sched["task_switches"] = st.Counters["sched.task_switches"]
+	sched["goroutines_started"] = st.Counters["sched.goroutines_started_by_the_program"]
+	sched["timers_fired"] = st.Counters["sched.timers_fired"]
+	sched["distinct_interleavings"] = len(st.sets["interleavings"]) + len(st.Distinct["interleavings"])
+	ev["coverage"].(map[string]interface{})["task_scheduler"] = sched
 	b, _ := json.MarshalIndent(ev, "", " ")
 	dir := filepath.Join(verifDir(), "evidence")
 	os.MkdirAll(dir, 0o755)
